@@ -395,6 +395,7 @@ func emit(rep *Report, level, tier string, seed int, wall float64, outDir string
 			nKnown++
 		}
 	}
+	nUndRes := nUnd
 	for _, c := range controls {
 		if c.Status == "missed" || c.Status == "base-not-silent" {
 			nUnd++
@@ -423,7 +424,16 @@ func emit(rep *Report, level, tier string, seed int, wall float64, outDir string
 		case Known:
 			fmt.Printf("KNOWN-FINDING: property=%s %s | %s | %s\n", rep.Prop, r.Rule, r.Construct, r.Detail)
 		case Undecided, Unresolved:
+			// fail closed: a rule instance the checker cannot decide at an anchored site (unlisted idiom,
+			// vanished anchor, vacuity floor) is reported like a violation, with its own replay file
+			vi++
+			path := filepath.Join(outDir, "violations", fmt.Sprintf("%s-%d.json", rep.Prop, vi))
+			b, _ := json.MarshalIndent(map[string]any{"property": rep.Prop, "rule": r.Rule, "rule_doc": rep.RuleDocs[r.Rule],
+				"construct": r.Construct, "pos": r.Pos, "status": r.Status, "detail": r.Detail}, "", " ")
+			os.WriteFile(path, append(b, '\n'), 0o644)
 			fmt.Printf("%s property=%s %s | %s | %s %s\n", strings.ToUpper(string(r.Status)), rep.Prop, r.Rule, r.Construct, r.Pos, r.Detail)
+			fmt.Printf("VIOLATION property=%s replay=%s\n", rep.Prop, path)
+			exit = 1
 		default:
 			if !quiet {
 				fmt.Printf("  %-8s %-4s %s | %s %s\n", r.Status, r.Rule, r.Construct, r.Pos, r.Detail)
@@ -434,7 +444,7 @@ func emit(rep *Report, level, tier string, seed int, wall float64, outDir string
 		fmt.Printf("  control %-10s %s: %s\n", c.Status, c.Name, c.Detail)
 	}
 	if nUnd > 0 && exit == 0 {
-		exit = 2
+		exit = 2 // only sensitivity controls can get here (a control that missed)
 	}
 	// evidence
 	samples := []any{}
@@ -486,7 +496,7 @@ func emit(rep *Report, level, tier string, seed int, wall float64, outDir string
 	}
 	ev := map[string]any{
 		"property_id": rep.Prop, "tier": tier, "seed": seed, "level": level,
-		"coverage": cov, "assumptions": rep.Assumptions, "wall_s": wall, "violations": nViol,
+		"coverage": cov, "assumptions": rep.Assumptions, "wall_s": wall, "violations": nViol + nUndRes,
 	}
 	if rep.Assumptions == nil {
 		ev["assumptions"] = []string{}
